@@ -19,7 +19,8 @@ from . import common, lib_expand as L
 from .common import parallel_map
 
 RULE = ("case = product graph (3-6 names x 1-3 versions, required/optional edges, bare / explicit / expression / "
-        "version+[expression] specs, -j, --external, optional products absent, a share of the dependency tables already in "
+        "version+[expression] specs, -j, --external, optional products absent, unsetupRequired/unsetupOptional lines (with and without -j) "
+        "in intermediate tables taking away a product the table brought in, a share of the dependency tables already in "
         "expanded form (exact block + inexact branch); 'cf' stream conflict-free by construction, "
         "'arb' stream with arbitrary specs incl. diamond conflicts) + build-time setup of the top product + expansion of its "
         "table (CLI defaults) + 0-4 syntactic/option variants expanded in the same environment + random evolution "
@@ -531,19 +532,25 @@ def complete_env(case, built):
     everything the top table asks for -- following every setup line that is not --external and whose product is set
     up, descending into that product's build-version table unless the line carries -j, no required product is missing.
     (It is false e.g. when `c -j` was set up first and a later plain request for c hit the already-set-up short cut, so
-    that c's own dependencies -- required or optional -- were never attempted.)"""
-    def ok(n, v, seen):
+    that c's own dependencies -- required or optional -- were never attempted; or when a table took a product away
+    that a product set up on another path requires.)"""
+    def ok(n, v, seen, exempt):
         lines = build_table(case, n, v)
         if lines is None:
             return False
         if (n, v) in seen:
             return True
         seen = seen | {(n, v)}
+        # what this table takes away again (unsetupRequired / unsetupOptional) may be missing for it and for everything it
+        # set up before -- not for a product reached on another path, which then lacks a dependency
+        exempt = exempt | {l["name"] for l in lines if l["k"] == "unsetup"}
         for l in lines:
             fl = l.get("flags") or []
             if l["k"] != "setup" or "--external" in fl:
                 continue
             q = l["name"]
+            if q not in built and q in exempt:
+                continue
             if q not in built:
                 # a missing optional product is fine only if it could not be set up at all; in the conflict-free stream
                 # every declared product can (its required dependencies are declared), so a declared one that is missing
@@ -551,10 +558,10 @@ def complete_env(case, built):
                 if not l["optional"] or q in (case.get("build") or {}):
                     return False
                 continue
-            if "-j" not in fl and not ok(q, built[q], seen):
+            if "-j" not in fl and not ok(q, built[q], seen, exempt):
                 return False
         return True
-    return ok(case["top"][0], case["top"][1], frozenset())
+    return ok(case["top"][0], case["top"][1], frozenset(), frozenset())
 
 
 def oracle_case(case, res):
@@ -717,6 +724,10 @@ def evaluate(ctx, cases):
         ctx.hist("stream=%s" % c["stream"])
         if c.get("expanded_deps"):
             ctx.hist("has_expanded_dependency_tables")
+        for _, _, ls in c["decl"]:
+            for l in ls:
+                if l["k"] == "unsetup":
+                    ctx.hist("unsetup_line=%s%s" % ("optional" if l["optional"] else "required", " -j" if l.get("flags") else ""))
         ctx.hist("build=%s" % r.get("build_ok"))
         if not ok:
             continue
@@ -771,6 +782,8 @@ def evaluate(ctx, cases):
                 ctx.hist("cf_incomplete_build_env")
             elif c["stream"] == "cf":
                 ctx.hist("cf_exact_resetup=%s" % ("same" if r.get("exact_records") == r["built"] and r.get("exact_ok") is True else "DIFFERS"))
+                if L.unsetup_targets(c, r["built"]):
+                    ctx.hist("cf_closure_with_unsetup_line_checked")
             else:
                 ctx.hist("arb_exact_resetup=%s" % ("same" if r.get("exact_records") == r["built"] and r.get("exact_ok") is True else "differs"))
             if r.get("exact_type") is not None and "exact" not in r["exact_type"]:
